@@ -21,7 +21,7 @@ REQUIRED_COUNTERS = ["histories", "calls_checked", "ledger_checks", "input_hash_
 ANCHOR_FUNCS = ["Data.get_scores", "Data._get_score"]
 TIMEOUT = {"quick": 1500, "thorough": 7200}
 
-KINDS = ["plain", "obsrange", "clim", "pit"]
+KINDS = ["plain", "obsrange", "clim", "pit", "ens"]
 
 
 def plan(tier, seed):
@@ -42,6 +42,15 @@ def menu(kind):
          (["obs", "fcst"], 1, "all", None), (["fcst"], 1, "no", 0), (["obs"], 0, "time", 1),
          (["obs", "fcst"], 0, "month", 0), (["obs"], 1, "all", None),
          (["obs", "fcst"], 1, "leadtime", 1), (["obs"], 0, "time", 0)]
+    if kind == "ens":
+        # quantiles and probabilities that the files do not store are derived from the ensemble members
+        m[2] = ([("q", 0.5)], 0, "all", None)
+        m[4] = ([("ens", 1)], 0, "all", None)
+        m[6] = ([("obs",), ("q", 0.5)], 1, "no", 0)
+        m[8] = ([("ens", 0)], 1, "leadtime", 0)
+        m[10] = ([("thr", 5.0)], 0, "all", None)
+        m[11] = ([("ens", 1)], 1, "no", 0)
+        m[13] = ([("q", 0.9)], 1, "all", None)
     if kind == "pit":
         m[11] = (["pit"], 0, "all", None)
         m[12] = (["obs", "pit"], 1, "no", 0)
@@ -50,8 +59,8 @@ def menu(kind):
 
 
 def make_ds(rng, kind):
-    ds = gen.make_dataset(rng, n_inputs=2, fmt="text", clim=(kind == "clim"), pit=(kind == "pit"), miss=0.2, sparse=0.1,
-                          max_t=3, max_l=3, max_s=2, same_dims=False)
+    ds = gen.make_dataset(rng, n_inputs=2, fmt="text", clim=(kind == "clim"), pit=(kind == "pit"), miss=0.2 if kind != "ens" else 0.05,
+                          sparse=0.1, max_t=3, max_l=3, max_s=2, same_dims=False, ens=(kind == "ens"), members=3)
     # at least two times and two lead times in common so that every menu entry exists
     return ds
 
@@ -59,7 +68,7 @@ def make_ds(rng, kind):
 def request(data, req):
     import verif.axis
     fields, k, axis, idx = req
-    vf = [vutil.vfield((f,)) for f in fields]
+    vf = [vutil.vfield(tuple(f) if isinstance(f, (tuple, list)) else (f,)) for f in fields]
     arg = vf if len(vf) > 1 else vf[0]
     if axis == "all":
         res = data.get_scores(arg, k)
@@ -173,7 +182,7 @@ def expected_table(fresh, men):
 def nontrivial(seq, men):
     for i, a in enumerate(seq):
         for b in seq[i + 1:]:
-            if (men[a][2] == "all" or len(men[a][0]) > 1) and (men[b][2] != "all" or len(men[b][0]) < len(men[a][0])):
+            if (men[a][2] == "all" or len(men[a][0]) > 1) and (men[b][2] != "all" or len(men[b][0]) < len(men[a][0]) or men[a][0] != men[b][0]):
                 return True
     return False
 
